@@ -118,7 +118,7 @@ func checkC18(c *Ctx, r *Report) {
 }
 
 func checkC19(c *Ctx, r *Report) {
-	r.Explanation = "Decides three structural necessary conditions of 'a broker appends only to partitions whose lease it holds': (R1) in handleProduce, AppendBatch has passed the comma-ok lookup leaseErrors[PartitionID{topic, partition}] with hasErr == false, keyed by the loop's topic and partition; (R2) acquirePartitionLeases enumerates every (topic, partition) of the request unconditionally and records every non-nil result error, and AcquireAll sets Err from Acquire for every partition it does not already own; (R3) the lease-error branch answers NOT_LEADER_OR_FOLLOWER for ErrNotOwner/ErrShuttingDown and another non-zero code otherwise, and never reaches AppendBatch. It does not cover lease loss between acquire and append."
+	r.Explanation = "Decides three structural necessary conditions of 'a broker appends only to partitions whose lease it holds': (R1) in handleProduce, AppendBatch has passed the comma-ok lookup leaseErrors[PartitionID{topic, partition}] with hasErr == false, keyed by the loop's topic and partition; (R2) acquirePartitionLeases enumerates every (topic, partition) of the request unconditionally and records every non-nil result error, and AcquireAll sets Err from Acquire for every partition it does not already own; (R3) the lease-error branch answers NOT_LEADER_OR_FOLLOWER for ErrNotOwner/ErrShuttingDown and another non-zero code otherwise, and never reaches AppendBatch. (R0) re-evaluates C18.L2/L3: the owned set the fast path trusts is written only after a successful conditional write under the live session and is reset in the same critical section as the session. It does not cover lease loss between acquire and append."
 	r.NotCovered = "lease loss between acquisition and append (timing)"
 	m, err := c.Mod("root")
 	if err != nil {
@@ -128,6 +128,23 @@ func checkC19(c *Ctx, r *Report) {
 	r.rule("C19.R1", "AppendBatch in handleProduce guarded by leaseErrors[{topic,partition}] hasErr==false", 1)
 	r.rule("C19.R2", "acquirePartitionLeases enumerates all request partitions and records every error; AcquireAll assigns Err from Acquire for every not-owned partition", 3)
 	r.rule("C19.R3", "lease-error entries carry non-zero codes (NOT_LEADER_OR_FOLLOWER for not-owner)", 2)
+	// ---- R0: what the broker believes it owns must be what it holds. The fast path of Acquire /
+	// AcquireAll trusts m.owned, so C18's ownership-bookkeeping clauses (owned is set only after a
+	// successful conditional write under the live session; owned is reset together with the session)
+	// are prerequisites here and are re-evaluated.
+	r.rule("C19.R0", "C18.L2/L3 hold: the owned set follows the live session", 5)
+	{
+		sub := newReport("C18")
+		checkC18(c, sub)
+		for _, x := range sub.Results {
+			if x.Status == Info {
+				continue
+			}
+			if x.Rule == "C18.L2" || x.Rule == "C18.L3" {
+				r.add("C19.R0", x.Rule+": "+x.Construct, x.Pos, x.Status, x.Detail)
+			}
+		}
+	}
 
 	hp := needFn(m, r, "C19.R1", pkgBroker, "(*handler).handleProduce")
 	if hp != nil {
